@@ -285,21 +285,28 @@ def run(ctx):
                f"coordinates are overwritten in place at {bad[:3]} (cached densities would go stale)")
     ctx.count("functions_scanned", sum(1 for _ in repo.all_functions()))
 
-    # ------------------------------------------------------------ who may write into an array: only its owner
+    own_rule(ctx)
+
+
+def own_rule(ctx, only_module: str | None = None, rule: str = "C10.own"):
+    """Who may write into an array: only its owner (rules/own.py)."""
     from . import own
+    repo = ctx.repo
     PRIMITIVE = "aspire.utils:update_at_indices"  # the write primitive itself; every caller is checked instead
     n_sinks = 0
     for f in repo.all_functions():
-        if f.ident == PRIMITIVE:
+        if f.ident == PRIMITIVE or (only_module is not None and not f.ident.startswith(only_module + ":")):
             continue
         for node, desc, st, name in own.analyse(f):
             if st == own.ELEMENT:
                 continue  # an item of a container (e.g. an HDF5 dataset looked up by name): not an array of the caller's
             n_sinks += 1
-            ctx.decide(st == own.OWNED, "C10.own", f.ident, loc_of(f, node), f"{desc}: the array written into was created in this function (copy / new array)",
+            ctx.decide(st == own.OWNED, rule, f.ident, loc_of(f, node), f"{desc}: the array written into was created in this function (copy / new array)",
                        f"{desc} writes into `{name}`, which may be (a view of) an argument or attribute: the caller's array -- e.g. the coordinates of a population whose "
-                       "log-densities are cached -- is changed in place", disc=f"{name}|{sum(1 for x in own.analyse(f) if x[0].lineno < node.lineno)}")
-    ctx.floor("in-place array writes analysed", n_sinks, 10)
+                       "log-densities are cached, or the stored log-weights of a sample set -- is changed in place", disc=f"{name}|{sum(1 for x in own.analyse(f) if x[0].lineno < node.lineno)}")
+    if only_module is None:
+        ctx.floor("in-place array writes analysed", n_sinks, 10)
+    return n_sinks
 
 
 _T = "src/aspire/transforms.py"
